@@ -49,6 +49,8 @@ type dbStep struct {
 	Pos        int        `json:"pos"`   // failwrites: position of the failing append
 	KC         string     `json:"kc"`    // argument class of the key for putx/delx/getx: nil | empty | ok
 	VC         string     `json:"vc"`    // argument class of the value for putx
+	Sched      []schedStep `json:"sched"` // op "sched": a complete schedule of the concurrent model (GenSimpleDBConc.tla)
+	DirectIO   bool       `json:"directio"` // open: EnableDirectIOWAL (with the synchronous WAL every mutation is refused by design)
 }
 
 type dbCase struct {
@@ -305,9 +307,10 @@ func runDB(args []string) error {
 }
 
 type dbExec struct {
-	rec  *dbRecorder
-	keys [][]byte
-	dir  string
+	rec     *dbRecorder
+	keys    [][]byte
+	dir     string
+	mayFail bool // the current session's options refuse every mutation (direct-I/O WAL without the asynchronous mode)
 }
 
 func (x *dbExec) step(db *simpledb.DB, s dbStep, g int) (*simpledb.DB, error) {
@@ -343,6 +346,10 @@ func (x *dbExec) step(db *simpledb.DB, s dbStep, g int) (*simpledb.DB, error) {
 		if s.Async {
 			opts = append(opts, simpledb.EnableAsyncWAL())
 		}
+		if s.DirectIO {
+			opts = append(opts, simpledb.EnableDirectIOWAL())
+		}
+		x.mayFail = s.DirectIO && !s.Async
 		if s.Bg {
 			opts = append(opts, simpledb.CompactionRunInterval(time.Duration(s.IntervalUs)*time.Microsecond))
 		} else {
@@ -387,7 +394,7 @@ func (x *dbExec) step(db *simpledb.DB, s dbStep, g int) (*simpledb.DB, error) {
 	}
 	switch s.Op {
 	case "put":
-		rec.emit(M{"t": "inv", "g": g, "op": "put", "k": s.K, "v": s.V, "kc": "ok", "vc": "ok", "fl": flavorOf(s)})
+		rec.emit(M{"t": "inv", "g": g, "op": "put", "k": s.K, "v": s.V, "kc": "ok", "vc": "ok", "fl": flavorOf(s), "mf": x.mayFail})
 		var err error
 		if s.Flavor == "string" {
 			err = db.Put(string(x.keys[s.K]), string(valBytes(s.V, s.Pad)))
@@ -396,7 +403,7 @@ func (x *dbExec) step(db *simpledb.DB, s dbStep, g int) (*simpledb.DB, error) {
 		}
 		rec.emit(M{"t": "ret", "g": g, "r": okOrErr(err)})
 	case "del":
-		rec.emit(M{"t": "inv", "g": g, "op": "del", "k": s.K, "v": "", "kc": "ok", "vc": "ok", "fl": flavorOf(s)})
+		rec.emit(M{"t": "inv", "g": g, "op": "del", "k": s.K, "v": "", "kc": "ok", "vc": "ok", "fl": flavorOf(s), "mf": x.mayFail})
 		var err error
 		if s.Flavor == "string" {
 			err = db.Delete(string(x.keys[s.K]))
@@ -417,6 +424,8 @@ func (x *dbExec) step(db *simpledb.DB, s dbStep, g int) (*simpledb.DB, error) {
 		x.argClassCall(db, s, g)
 	case "crashcheck":
 		x.crashCheck(db, s)
+	case "sched":
+		x.sched(db, s)
 	case "window":
 		if x.window(db, s) {
 			return nil, nil // the window closed the database
@@ -477,7 +486,7 @@ func (x *dbExec) step(db *simpledb.DB, s dbStep, g int) (*simpledb.DB, error) {
 	return db, nil
 }
 
-func (x *dbExec) get(db *simpledb.DB, k int, g int, flavor string) {
+func (x *dbExec) get(db *simpledb.DB, k int, g int, flavor string) string {
 	x.rec.emit(M{"t": "inv", "g": g, "op": "get", "k": k, "v": "", "kc": "ok", "vc": "ok", "fl": "bytes"})
 	var v []byte
 	var err error
@@ -498,6 +507,7 @@ func (x *dbExec) get(db *simpledb.DB, k int, g int, flavor string) {
 		r = valToken(v)
 	}
 	x.rec.emit(M{"t": "ret", "g": g, "r": r})
+	return r
 }
 
 func okOrErr(err error) string {
